@@ -8,7 +8,7 @@ pub fn res_code(r: Option<GameResult>) -> &'static str {
     match r { None => "N", Some(GameResult::WhiteCheckmates) => "WC", Some(GameResult::WhiteResigns) => "WR", Some(GameResult::BlackCheckmates) => "BC",
         Some(GameResult::BlackResigns) => "BR", Some(GameResult::Stalemate) => "ST", Some(GameResult::DrawAccepted) => "DA", Some(GameResult::DrawDeclared) => "DD" }
 }
-fn state(g: &Game) -> String {
+pub fn state(g: &Game) -> String {
     format!("{},{},{},{}", res_code(g.result()), if g.side_to_move() == Color::White { 'w' } else { 'b' }, g.can_declare_draw() as u8, g.actions().len())
 }
 const NEAR_TERMINAL: &[&str] = &[
@@ -18,6 +18,9 @@ const NEAR_TERMINAL: &[&str] = &[
     "4k3/8/8/8/8/8/8/R3K1N1 w Q - 0 1", "r3k2r/8/8/8/8/8/8/R3K2R w KQkq - 0 1", "4k3/8/8/8/8/8/8/4K2R w K - 0 1",
     "8/P7/8/8/8/8/8/1K5k w - - 0 1", "1k5K/8/8/8/8/8/p7/8 b - - 0 1", "8/1P6/8/8/8/8/8/K1k3N1 w - - 0 1", "8/8/8/8/8/8/6p1/k1K3n1 b - - 0 1",
     "8/8/8/3k4/8/3K4/8/4R2r w - - 0 1", "8/8/4k3/8/8/2N1K3/8/6n1 w - - 0 1", "1n2k3/8/8/8/8/8/8/1N2K3 w - - 0 1",
+    // the two sides hold different castling rights while knights shuffle (repetition bookkeeping per colour)
+    "rn2k2r/8/8/8/8/8/8/R3K1NR w Kq - 0 1", "r3k1nr/8/8/8/8/8/8/RN2K2R b Qk - 0 1", "rn2k2r/pppppppp/8/8/8/8/PPPPPPPP/R3K1NR w K - 0 1",
+    "r3k1nr/pppppppp/8/8/8/8/PPPPPPPP/RN2K2R w kq - 0 1", "1n2k2r/8/8/8/8/8/8/RN2K3 w Qk - 0 1", "rnbqkbnr/pppppppp/8/8/8/8/PPPPPPPP/RNBQKBNR w KQq - 0 1",
 ];
 
 pub fn run(n: u64, mode: &str) {
